@@ -76,6 +76,41 @@ def finding_key(suite, ops, line, msg):
     return "C09:DefaultCypherContext:" + (msg.split()[1] if len(msg.split()) > 1 else "reject")
 
 
+# clause of the statement (properties.jsonl) -> what proves it for ALL inputs (with hypotheses), or "searched only" / "tie only"
+CLAUSES = {
+    "accepted under the default context => no clause that creates / modifies / deletes data, no procedure call, no user parameter, at any depth or position":
+        "PROVED at parse-tree level: accepted_default_readonly = c09_tree (C09_tree_full). HYPOTHESES: root is oC_Cypher, the tree follows the regenerated grammar (wf refs), "
+        "it is syntactically complete (conforms must: no syntax error was reported), and the listener error model raises nothing (T.listenerErrors t = []: default filters + "
+        "unsupported rules). Proof: dominance over the grammar reference graph (S_closed, S_root, forbidden_dominated: every forbidden rule reachable from the root lies "
+        "behind a rule that implies a filtered one), mandatory-children analysis (avoidTab_ok, avoid_implied), every filter is called on every rule node (listener_shape, "
+        "filter_fires), instantiated by decide on the tables of the current Cypher.g4 / cypher_parser.go / cypher/frontend (names_agree, numRules_ok, forbidden_names, "
+        "direct_names, directTab_ok, direct_rules, root_is_cypher).",
+    "consequently the SQL translated from an accepted query contains no data-modifying statement":
+        "SEARCHED ONLY: every accepted case is translated and the pgsql AST is scanned by reflection for data-modifying statement nodes (field dml=); there is no "
+        "Lean model of the translator in this check — the consequence is validated per accepted case, not proved.",
+    "a query that differs from an accepted one only by the insertion of such a clause is rejected":
+        "PROVED as the contrapositive of accepted_default_readonly for every insertion that yields a grammatical tree (filter_fires: a tree containing a directly filtered "
+        "rule has a listener error); for insertions that make the text ungrammatical: tie only (the syntax error count comes from ANTLR). Searched: every updating clause / "
+        "CALL form / $parameter inserted at every clause boundary of corpus queries and grammar-generated sentences.",
+    "holds for the context the caller actually gets (fresh, older, reused default contexts)":
+        "SEARCHED ONLY: the theorems speak about ONE walk with the five default filters; harness/c09.go additionally parses with a default context that is no longer the "
+        "most recently created one and with a context reused after an earlier (accepted or rejected) parse, and requires the same acceptance (fields acc / acc_old and the "
+        "reused-context probe).",
+    "searched only (tie)":
+        "that the extracted filter / unsupported-rule tables are what cypher/frontend does and that ANTLR's tree of an error-free parse follows the regenerated grammar: per "
+        "case the model is run on the real ANTLR tree (wf + conforms re-checked) and acceptance, filter error counts by class and the unsupported-rule multiset are compared "
+        "with ParseCypher(DefaultCypherContext()); errors reported by a method of the ACTIVE visitor (AtomVisitor.EnterOC_ShortestPathPattern, chained property lookups) "
+        "are found by walking with the C08 listener model and only shrink the accepted set.",
+    "named assumptions":
+        "ANTLR 4 runtime and generated parser; tools/extract/grammar.py and goext frontend / visitors; ParseTreeWalker calls EnterEveryRule on every rule node; errors.Join of "
+        "a non-empty list is non-nil; `no DML` is a property of the translator output checked by search.",
+}
+
+
+def extra_coverage(ctx, stats):
+    return {"clause_map": CLAUSES}
+
+
 SPEC = {
     "id": "C09",
     "title": "default parse context admits read-only queries only",
@@ -88,6 +123,7 @@ SPEC = {
                 "judge": judge, "keep_prefix": 1}],
     "nontrivial": nontrivial,
     "finding_key": finding_key,
+    "extra_coverage": extra_coverage,
     "rule": "cases = every Cypher text of the repository corpora (translation_cases/*.sql '-- case:' lines, cypher/test/cases/*.json) + a fixed list of "
             "stand-alone forbidden statements + mutants inserting an updating clause / CALL form before a random clause keyword or replacing a literal by $p/{p} "
             "(2 per query quick, 12 thorough; splitmix64(VERIF_SEED)); non-trivial = the mutant parsed without syntax error and was rejected by a filter/unsupported rule; "
@@ -102,10 +138,10 @@ SPEC = {
 MANIFEST = {
     "category": "proof",
     "technique": "Lean 4 theorem over all rule-labelled parse trees (grammar dominance + listener/filter model) instantiated by kernel-checked decide on tables regenerated from Cypher.g4 and cypher/frontend; differential tie on ANTLR trees",
-    "text": "Theorem accepted_default_readonly: every parse tree of oC_Cypher that follows the (regenerated) grammar, is syntactically complete and raises no listener error "
+    "text": "Clause map: evidence coverage.clause_map (lib/props/c09.py CLAUSES). Theorem accepted_default_readonly: every parse tree of oC_Cypher that follows the (regenerated) grammar, is syntactically complete and raises no listener error "
             "contains no updating clause, schema command, bulk import, procedure call or parameter at any depth. Proved generically (dominance over the grammar reference graph, "
             "mandatory-children analysis, listener calls every filter on every rule node) and instantiated by decide +kernel on the tables extracted from the current Cypher.g4, "
             "cypher_parser.go and cypher/frontend/*.go, so a new grammar path that bypasses oC_UpdatingClause, a removed filter, or an overridden unsupported rule breaks lake build. "
             "The tie runs the real ParseCypher(DefaultCypherContext) on corpus queries and grammar-position mutants and compares error classes with the model run on the real ANTLR tree.",
-    "note": "Trusted: Lean kernel, the two extractors, ANTLR (tree shape re-validated per case). The consequence for emitted SQL (no DML) is validated per accepted case, not proved.",
+    "note": "Trusted: Lean kernel, the two extractors, ANTLR (tree shape re-validated per case). The consequence for emitted SQL (no DML) is validated per accepted case, not proved; the older / reused default-context probes are search as well. The theorem's hypotheses are: root oC_Cypher, wf, conforms (no syntax error), no listener error.",
 }
